@@ -3,6 +3,43 @@
 from .. import kernelgen
 from ..kernelcheck import run_kernel_check
 
+def _h(comp, names, prio, script):
+    return {'comp': comp, 'names': names, 'chan': None, 'prio': prio, 'script': script}
+
+
+def fam_callwait(maxops):
+    """call() and wait() by object, nested and sequential, callees that yield / raise after a wait"""
+    return {
+        'comps': {'1': {'chan': 'a'}},
+        'handlers': {
+            '1': _h(1, ['x0'], 1, {'x0': [['call', {'name': 'x1', 'flags': 1}, None], ['ret', 5]]}),
+            '2': _h(1, ['x0'], 0, {'x0': [['yield', 2], ['fire', {'name': 'x2', 'flags': 4}], ['yield', None], ['ret', 3]]}),
+            '3': _h(1, ['x1'], 0, {'x1': [['yield', None], ['ret', 7]]}),
+            '4': _h(1, ['x1'], -1, {'x1': [['ret', 8]]}),
+            '5': _h(1, ['x2'], 0, {'x2': [['fire', {'name': 'x3'}], ['wait', {'name': 'x3'}, None], ['raise']]}),
+            '6': _h(1, ['x3'], 0, {'x3': [['ret', 1]]}),
+        },
+        'ext': [{'name': 'x0', 'flags': 5}, {'name': 'x2', 'flags': 0}],
+        'ops': ['fire', 'tick', 'flush'], 'pre': [], 'maxops': maxops, 'firers': [1], 'flushers': [1], 'dyn': [],
+    }
+
+
+def fam_nested(maxops):
+    """x0 calls x1 whose handler calls x2 (by name wait on the side); two callers of the same event name in flight"""
+    return {
+        'comps': {'1': {'chan': 'a'}, '2': {'chan': 'a'}},
+        'handlers': {
+            '1': _h(1, ['x0'], 0, {'x0': [['call', {'name': 'x1'}, None], ['call', {'name': 'x2'}, None], ['ret', 1]]}),
+            '2': _h(2, ['x1'], 0, {'x1': [['call', {'name': 'x2', 'flags': 1}, None], ['ret', 2]]}),
+            '3': _h(2, ['x2'], 0, {'x2': [['yield', None], ['ret', 3]]}),
+            '4': _h(1, ['x2'], -1, {'x2': [['raise']]}),
+            '5': _h(2, ['x3'], 0, {'x3': [['fire', {'name': 'x2'}], ['wait', {'name': 'x2', 'byname': True}, None], ['ret', 5]]}),
+        },
+        'ext': [{'name': 'x0', 'flags': 1}, {'name': 'x3', 'flags': 0}],
+        'ops': ['fire', 'tick'], 'pre': [['reg', 2, 1]], 'maxops': 1 + maxops, 'firers': [1], 'flushers': [1], 'dyn': [],
+    }
+
+
 RANDOM_OPTS = {
     'ncomp': 2, 'shapes': ['plain', 'class'], 'nhandlers': (3, 7), 'prios': [-1, 0, 0, 1],
     'kinds': ['named', 'named', 'named', 'named', 'catchall'], 'nnames': 4, 'chans': ['a'],
@@ -34,8 +71,15 @@ def witness(prog, lines, clause, line):
     plain_raised = any(ln['k'] == 'ret' and ln['f'] == 1 and ln['e'] in awaited for ln in lines)
     byname = any(ln['x'] == 0 for ln in waits)
     tmo = any(ln['d'] >= 0 for ln in waits)
+    timeout_fired = any(ln['k'] == 'resume' and ln['f'] == 2 for ln in lines[:line])
+    # a caller that goes on yielding after it was resumed with TimeoutError
+    cont = False
+    for i, ln in enumerate(lines):
+        if ln['k'] == 'resume' and ln['f'] == 2:
+            if any(l2['k'] == 'yld' and l2['e'] == ln['e'] and l2['h'] == ln['h'] for l2 in lines[i + 1:]):
+                cont = True
     return {'awaited_generator_raised': gen_raised, 'awaited_plain_raised': plain_raised, 'wait_by_name': byname,
-            'with_timeout': tmo}
+            'with_timeout': tmo, 'timeout_fired_before': timeout_fired, 'caller_continues_after_timeout': cont}
 
 
 def mutate(rnd, prog, lines):
@@ -62,10 +106,17 @@ def mutate(rnd, prog, lines):
 
 
 def run(tier, replay=None):
+    quick = tier == 'quick'
     spec = {
         'own': ['C06'],
-        'families': [],
-        'teeth': [],
+        'families': [
+            {'name': 'callwait', 'programs': [fam_callwait(2 if quick else 3)], 'hist_programs': [fam_callwait(2 if quick else 3)],
+             'hist_cap_quick': 600},
+            {'name': 'nested', 'programs': [fam_nested(2 if quick else 3)], 'hist_programs': [fam_nested(2 if quick else 3)],
+             'hist_cap_quick': 600},
+        ],
+        'teeth': [{'name': 'callwait/GenErrorHang', 'programs': [fam_callwait(2)], 'variants': {'GenErrorHang': True},
+                   'expect': {'ConformsC05', 'ConformsC06', 'ConformsC04', 'CompleteDelivered', 'NoTaskResidue'}}],
         'random': gen_random, 'witness': witness, 'mutators': mutate,
         'nontrivial': lambda p, ls: any(ln['k'] == 'yld' and ln['f'] == 1 for ln in ls),
         'rule': 'cases = (program, external history): seeded random acyclic programs of generator handlers that call()/wait() on '
